@@ -126,6 +126,10 @@ func (s *Server) serve(node string, nl *lease.NodeLeaser, w http.ResponseWriter,
 		ss := s.sessions[id]
 		s.mu.Unlock()
 		if ss == nil || ss.gone {
+			if ss != nil && ss.node == node {
+				// (the holder asks again about a session it was told is gone)
+				s.svc.Note(node, "renew", id, "expired")
+			}
 			http.Error(w, "session not found", 404)
 			return
 		}
